@@ -579,6 +579,8 @@ class RecurrencePlot(Cached):
             recurrence[:, self.missing_value_indices] = 0
 
         self.R = recurrence
+        #  sequential RQA recomputes recurrences from the stored threshold
+        self.threshold = threshold
 
     def set_fixed_threshold_std(self, threshold_std):
         """
